@@ -122,6 +122,8 @@ TxChecks(pre, ev, post) ==
     /\ Chk(C07_Allowances(pre, ev, post), "C07", "allowances", "")
     /\ Chk(C07_FailedUnchanged(pre, ev, post), "C07", "failed-unchanged", "")
     /\ Chk(C09_Funds(pre, ev, post), "C09", "funds", "")
+    /\ Chk(C09_Credit(pre, ev, post), "C09", "credit", "")
+    /\ Chk(C19_Monotone(pre, post), "C19", "registry-grows", "")
     /\ Chk(C10_Swap(pre, ev), "C10", "swap", "")
     /\ Chk(C11_Minimum(pre, ev, post), "C11", "minimum", "")
     /\ Chk(C13_PassThrough(pre, ev, post), "C13", "pass-through", "")
